@@ -302,4 +302,11 @@ def r5_formula_normal_form(ctx: Ctx) -> None:
     ctx.floor("formulas", 2)
 
 
-RULES = [r1_builtin_maps, r2_mirror_construction, r3_argument_binding, r4_rejection, r5_formula_normal_form]
+
+def rb_binding_agreement(ctx: Ctx) -> None:
+    from ..ownership import binding_agreement
+
+    binding_agreement(ctx)
+
+
+RULES = [r1_builtin_maps, r2_mirror_construction, r3_argument_binding, r4_rejection, r5_formula_normal_form, rb_binding_agreement]
